@@ -1027,7 +1027,8 @@ CHECK = Check(
         "known finding F03: to_python runs after rule selection, ValidationError becomes NoMatch without backtracking (negation witness match_notfound_only_if_full_false; theorems assume ConvOK)",
         "known finding F03b: the slash-less admission of a non-strict branch rule is not counted for MethodNotAllowed (negation witnesses match_notfound_any_method_full_false, match_405_full_false)",
         "known finding F03c: SlashRequired / merged-slashes redirect is raised before to_python validation, so the redirect target can be NotFound",
-        "match_405_iff_partial additionally assumes the path is not subject to slash merging (the second pass adds the methods of rules that admit the merged path); insertion_order_irrelevant is OPEN (see Props/C03.lean)",
+        "match_405_iff_partial additionally assumes the path is not subject to slash merging (the second pass adds the methods of rules that admit the merged path)",
+        "insertion order: proved for arbitrary permutations that the search is None for one order iff for the other, and that the found rule and groups coincide when the specificity order decides between the directly admitting (strict) rules (insertion_order_irrelevant_partial); rules of equal specificity (e.g. <int:x> vs <float:y> at the same place, or two rules with the same pattern) are a genuine tie broken by insertion order - the full-strength statement is OPEN (see Props/C03.lean)",
     ],
     trusted_extra=["CPython re / int / float / uuid semantics for the modelled primitives (validated by the streams, not verified)"],
     quick_budget=8000,
@@ -1036,7 +1037,7 @@ CHECK = Check(
 
 MANIFEST = {
     "level_text": "Machine-checked Lean 4 theorems about an executable model of Rule compilation, StateMachineMatcher.add/update/match (same control flow: static before dynamic, weight-sorted dynamics, backtracking, slash / merged-slashes passes, conversion after selection) and MapAdapter.match, against a per-rule recogniser that is independent of all other rules: soundness, NotFound and MethodNotAllowed characterisations, priority (returned rule is specificity-minimal) for arbitrary rule lists and paths; converter regex/weight tables regenerated from the live DEFAULT_CONVERTERS and checked by decide; model tied to the code by two differential streams; an independent regex-per-rule oracle runs on the real code.",
-    "level_note": "Trusted: Lean kernel; extract.py; harness; CPython re/int/float/uuid (modelled, stream-validated). NotFound/405 theorems are _partial: they assume to_python accepts what the regex accepts (F03), count no slash-less admissions (F03b) and, for 405, no slash merging; insertion-order independence is OPEN. Known findings F03, F03b, F03c.",
+    "level_note": "Trusted: Lean kernel; extract.py; harness; CPython re/int/float/uuid (modelled, stream-validated). NotFound/405 theorems are _partial: they assume to_python accepts what the regex accepts (F03), count no slash-less admissions (F03b) and, for 405, no slash merging; insertion-order independence is proved in a _partial form (search-None equivalence; equal result when the specificity order is decisive), full strength OPEN. Known findings F03, F03b, F03c.",
     "technique": "Lean 4 proof (induction over the nested trie, strict-weak-order proof for Weighting, decide +kernel over regenerated tables and concrete witnesses) + model/code correspondence",
     "design_ref": "DESIGN.md section 4, C03",
 }
